@@ -162,57 +162,64 @@ def run_abort(desc):
         if Un != [u for u in U if u[0] != 'S'] or wn.get_skipped() != sk:
             fail('on_skip returning None changes more than dropping the skip values')
         nontrivial = len(U) >= 3 and len(skips) >= 1
-        # ---- every abort point --------------------------------------------------------------------
-        for k in range(0, n + 2):
-            w = new()
-            if k == 0:
-                w.kill()
-            else:
-                w.kill_at = k
-            got = w.match()
-            out.evaluations += 1
-            if got != U[:len(got)]:
-                fail('output after kill is not a prefix of the uninterrupted output', k=k, got=got[-3:], want=U[:len(got)][-3:])
-                break
-            if k == 0 and (got or w.count):
-                fail('kill() before the run does not prevent it', k=k, hooks=w.count)
-                break
-            if 1 <= k <= n:
-                extra = w.count - k
-                later = [x[0] for x in w.log[k:]]
-                # allowed: the directory validation in progress may finish, and one file (the one being processed, or the next
-                # one when the kill came from a directory hook): compare_file, on_validate_file, on_match/on_skip
-                if extra > 4 or later.count('match') + later.count('skip') > 1 or later.count('vd') + later.count('cd') > 1:
-                    fail('more than the file being processed is finished after kill', k=k, extra_hooks=extra, log=w.log[k - 1:k + 5])
+        # ---- every abort point (with on_skip returning a value, and returning None) ---------------------
+        U_all, n_all, log_all = U, n, log_full
+        for skip_none in (False, True):
+            if skip_none:
+                U, n, log_full = Un, wn.count, list(wn.log)
+            new_k = (lambda sn=skip_none: new(skip_none=sn))
+            for k in range(0, n + 2):
+                w = new_k()
+                if k == 0:
+                    w.kill()
+                else:
+                    w.kill_at = k
+                got = w.match()
+                out.evaluations += 1
+                if got != U[:len(got)]:
+                    fail('output after kill is not a prefix of the uninterrupted output', k=k, got=got[-3:], want=U[:len(got)][-3:])
                     break
-                if not w.is_aborted():
-                    fail('is_aborted() is False after kill', k=k)
+                if k == 0 and (got or w.count):
+                    fail('kill() before the run does not prevent it', k=k, hooks=w.count)
                     break
-                # how many values may still come out: only those of the file being processed
-                if len(got) > len(prefix_until(U, log_full, k)) + 0:
-                    fail('values yielded beyond the file being processed when kill() was called', k=k, got=len(got),
-                         allowed=len(prefix_until(U, log_full, k)))
+                if 1 <= k <= n:
+                    extra = w.count - k
+                    later = [x[0] for x in w.log[k:]]
+                    # allowed: the directory validation in progress may finish, and one file (the one being processed, or the next
+                    # one when the kill came from a directory hook): compare_file, on_validate_file, on_match/on_skip
+                    if extra > 4 or later.count('match') + later.count('skip') > 1 or later.count('vd') + later.count('cd') > 1:
+                        fail('more than the file being processed is finished after kill', k=k, extra_hooks=extra, log=w.log[k - 1:k + 5])
+                        break
+                    if not w.is_aborted():
+                        fail('is_aborted() is False after kill', k=k)
+                        break
+                    # how many values may still come out: only those of the file being processed
+                    if len(got) > len(prefix_until(U, log_full, k)) + 0:
+                        fail('values yielded beyond the file being processed when kill() was called', k=k, got=len(got),
+                             allowed=len(prefix_until(U, log_full, k)))
+                        break
+                # sticky until reset
+                w.kill_at = None
+                again = w.match()
+                if k <= n and again:
+                    fail('abort is not sticky: a new match() on a killed object yields values', k=k, got=again[:3])
                     break
-            # sticky until reset
-            w.kill_at = None
-            again = w.match()
-            if k <= n and again:
-                fail('abort is not sticky: a new match() on a killed object yields values', k=k, got=again[:3])
-                break
-            if k <= n and not w.is_aborted():
-                fail('is_aborted() cleared without reset()', k=k)
-                break
-            it = w.imatch()
-            if k <= n and list(it):
-                fail('abort is not sticky for imatch()', k=k)
-                break
-            w.reset()
-            full = w.match()
-            if full != U or w.get_skipped() != sk or w.is_aborted():
-                fail('after reset() the run is not the complete result again', k=k, got=len(full), want=len(U))
-                break
-            if nontrivial and 1 <= k <= n:
-                out.nontrivial(('kill', desc['tree'], desc['cfg'], k))
+                if k <= n and not w.is_aborted():
+                    fail('is_aborted() cleared without reset()', k=k)
+                    break
+                it = w.imatch()
+                if k <= n and list(it):
+                    fail('abort is not sticky for imatch()', k=k)
+                    break
+                w.reset()
+                full = w.match()
+                if full != U or w.get_skipped() != sk or w.is_aborted():
+                    fail('after reset() the run is not the complete result again', k=k, got=len(full), want=len(U))
+                    break
+                if nontrivial and 1 <= k <= n:
+                    out.nontrivial(('kill', desc['tree'], desc['cfg'], k, skip_none))
+
+        U, n, log_full = U_all, n_all, log_all
         # ---- kill between two yielded results (driving imatch by hand) -----------------------------
         for j in range(0, len(U) + 1):
             w = new()
